@@ -647,3 +647,14 @@ u32 VA9_snprintf(u8 *buf, u64 size, u8 *fmt, u64 year, u32 mon, u32 day, u32 hou
   return (u32)n;
 }
 #endif
+
+/* std::string destructor (out-of-line instance used for static-duration strings) and atexit registration */
+#ifdef USES__ZNSt7__cxx1112basic_stringIcSt11char_traitsIcESaIcEED2Ev
+static void M__ZNSt7__cxx1112basic_stringIcSt11char_traitsIcESaIcEED2Ev(void *S) { verif_str_dispose(VSTR(S)); }
+#endif
+#ifdef USES__ZNSt7__cxx1112basic_stringIcSt11char_traitsIcESaIcEED1Ev
+static void M__ZNSt7__cxx1112basic_stringIcSt11char_traitsIcESaIcEED1Ev(void *S) { verif_str_dispose(VSTR(S)); }
+#endif
+#ifdef USES___cxa_atexit
+static s32 M___cxa_atexit(void *f, void *a, void *d) { (void)f; (void)a; (void)d; return 0; }   /* destructors of statics are not run */
+#endif
